@@ -187,6 +187,9 @@ def _check_seq(acc, case, flat, rows, cols, ra):
     steps += [("col_counts", lambda: ra.col_counts(), counts), ("tolist", lambda: np.array([len(r) for r in ra.tolist()]), ("A", (len(rows),), tuple(lens)))]
     steps += [(f"col{j} after tolist", lambda j=j: ra.get_column_values(j), colv(j)) for j in range(m)]
     steps += [("sum0 again", lambda: np.sum(ra, axis=0), sums)]
+    # a third, untouched object of the same kind is asked its column counts FIRST (nothing has materialised it yet)
+    ra3 = (mkp()[:, s] if vkind in COLSLICES else _pending_view(vkind, rows, dt)) if vkind is not None else RaggedArray(flat.copy(), list(lens))
+    steps = [("col_counts first", lambda: ra3.col_counts(), counts), ("sum0 after counts", lambda: ra3.sum(axis=0), sums)] + steps
     means = ("A", (m,), tuple(pyval(sum(c)) / len(c) for c in cols))
     if dt == "int64":
         # exact in float64 for these small integers; the FIRST thing asked of a second, equal object
